@@ -8,6 +8,29 @@ def parseDecl (j : Json) : Option Decl := do
   | [k, a, b] => if (← jStr k) == "dict" then pure (.dict (← jNat a) (← jNat b)) else none
   | _ => none
 
+def parseVDecl (j : Json) : Option VDecl := do
+  match ← jArr j with
+  | [k, a] => if (← jStr k) == "loc" then pure (.loc (← jNat a)) else none
+  | [k, a, b] =>
+    if (← jStr k) == "dict" then pure (.dict (← (← jArr a).mapM jNat) (← (← jArr b).mapM jNat)) else none
+  | _ => none
+
+def parseRhs (j : Json) : Option Rhs := do
+  match ← jArr j with
+  | [k, a] => if (← jStr k) == "const" then pure (.const (← jNat a)) else none
+  | [k, a, b] =>
+    let k ← jStr k
+    if k == "copy" then pure (.copy (← jNat a) (← jNat b))
+    else if k == "sum" then pure (.sum (← jNat a) (← jNat b))
+    else none
+  | _ => none
+
+def parseStmt (j : Json) : Option Stmt := do
+  let t ← fInt j "t"
+  let temps ← (← fArr j "temps").mapM jNat
+  pure { target := if t < 0 then none else some t.toNat, rhs := ← parseRhs (← field j "rhs"),
+         temps := temps.map fun n => (n, List.replicate n 255) }
+
 def step (j : Json) : Option String := do
   let op ← fStr j "op"
   if op == "alloc" then
@@ -18,6 +41,22 @@ def step (j : Json) : Option String := do
     let sizes ← (← fArr j "sizes").mapM jNat
     let (_, out) := sizes.foldl (fun (st, acc) n => let a := getStack st n; (a, acc ++ [toString a])) ((← fInt j "stack"), [])
     pure (joinSp out)
+  else if op == "vars" then
+    let ds ← (← fArr j "decls").mapM parseVDecl
+    let (sl, fin) := varSlots (← fInt j "start") ds
+    pure s!"{joinSp (sl.map fun s => s!"{s.addr}:{s.size}")} | {fin}"
+  else if op == "exec" then
+    let ds ← (← fArr j "decls").mapM parseVDecl
+    let start ← fInt j "start"
+    let cells ← (← fArr j "cells").mapM fun c => do
+      match ← jArr c with
+      | [a, b] => pure (← jNat a, ← jNat b)
+      | _ => none
+    let stmts ← (← fArr j "stmts").mapM parseStmt
+    let (sl, fin) := varSlots start ds
+    let vars := sl.map Var.stack ++ cells.map fun c => Var.cell c.1 c.2
+    let s := execAll vars fin ⟨fun _ => 0, fun _ => 0⟩ stmts
+    pure (joinSp ((List.range vars.length).map fun i => toString (readVar vars s i)))
   else if op == "sub" then
     pure (toString (subAddr (← fInt j "stack") (← fInt j "rel")))
   else none
